@@ -615,7 +615,7 @@ def check_c14(tier):
         os.makedirs(sp, exist_ok=True)
         os.makedirs(os.path.join(ws, "tests"), exist_ok=True)
         with open(os.path.join(ws, "tests", "test_x.py"), "w") as fh:
-            fh.write("def test_x(plug_fx, sub_fx, builtin_fx, imp_fx):\n    pass\n")
+            fh.write("def test_x(plug_fx, sub_fx, builtin_fx, imp_fx, ext_fx):\n    pass\n")
         plug_src = "import pytest\n\n\n@pytest.fixture\ndef plug_fx():\n    return 1\n"
         sub_src = "import pytest\n\n\n@pytest.fixture\ndef sub_fx():\n    return 1\n"
         if c["builtin"]:
@@ -664,11 +664,19 @@ def check_c14(tier):
                     fh.write(plug_src)
             with open(os.path.join(src_root, "plugpkg", "sub.py"), "w") as fh:
                 fh.write(sub_src)
+        if c.get("confplug"):
+            os.makedirs(os.path.join(src_root, "extfx"), exist_ok=True)
+            open(os.path.join(src_root, "extfx", "__init__.py"), "w").close()
+            with open(os.path.join(src_root, "extfx", "db.py"), "w") as fh:
+                fh.write("import pytest\n\n\n@pytest.fixture\ndef ext_fx():\n    return 1\n")
+            with open(os.path.join(ws, "conftest.py"), "w") as fh:
+                fh.write('pytest_plugins = ["extfx.db"]\n')
         ops = [{"op": "scan", "root": ws}, {"op": "snapshot", "full": True}, {"op": "unused"},
                {"op": "goto", "path": os.path.join(ws, "tests", "test_x.py"), "line": 0, "col": 11},
                {"op": "goto", "path": os.path.join(ws, "tests", "test_x.py"), "line": 0, "col": 20},
                {"op": "goto", "path": os.path.join(ws, "tests", "test_x.py"), "line": 0, "col": 28},
-               {"op": "goto", "path": os.path.join(ws, "tests", "test_x.py"), "line": 0, "col": 40}]
+               {"op": "goto", "path": os.path.join(ws, "tests", "test_x.py"), "line": 0, "col": 40},
+               {"op": "goto", "path": os.path.join(ws, "tests", "test_x.py"), "line": 0, "col": 48}]
         vctx[n] = c
         hcases.append({"id": n, "ops": ops})
     for res in C.run_harness(hcases, threads=8):
@@ -688,7 +696,7 @@ def check_c14(tier):
         listed = {x["name"] for x in unused} if isinstance(unused, list) else set()
         if any(want.get(nm) == "third" for nm in listed):
             V.violation(dict(ex, unused=sorted(listed)), "a third-party fixture is listed by `fixtures unused`")
-        for j, nm in enumerate(["plug_fx", "sub_fx", "builtin_fx", "imp_fx"]):
+        for j, nm in enumerate(["plug_fx", "sub_fx", "builtin_fx", "imp_fx", "ext_fx"]):
             g = res["res"][3 + j]
             if (g is not None and "name" in g) != (nm in want):
                 V.violation(dict(ex, name=nm, goto=g), "a usage of an installed plugin fixture does not resolve exactly when the plugin provides it")
